@@ -178,7 +178,9 @@ def _generator(ctx):
          "float": glob("builtins.float")}
     pos = A.spec("pd.DataFrame(acc[:gs]).T * (float(gl) / nu)", b)
     b["pos"] = pos
-    specs = [A.spec(s, b) for s in ('(pb.dot(relu(pos)) + nb.dot(relu(-pos))).add(off, axis="index")',)]
+    specs = [A.spec(s, b) for s in ('(pb.dot(relu(pos)) + nb.dot(relu(-pos))).add(off, axis="index")',
+                                    '(pb.dot(relu(pos)) + nb.dot(relu(-pos))).add(off, axis=0)',
+                                    '(pb.dot(relu(pos)) + nb.dot(relu(-pos))).add(off, axis="rows")')]
     A.formula("R09.4", fq, e.node, e.data["value"], specs, "grid = pos_basis.relu(c) + neg_basis.relu(-c) + offset with c = "
               "first grid_size lattice points * grid_limit / n_units", construct="grid formula")
     # the store happens only when the lattice has at least grid_size points
